@@ -33,6 +33,9 @@ func init() {
 		Engine   string
 		Variants []string
 	}{"histsim", []string{"crash", "crash", "crash", "reader"}}
+	e := PropEngines["C06"]
+	e.Variants = []string{"seq", "seq", "seq", "race"}
+	PropEngines["C06"] = e
 }
 
 var dagNames = []string{"a", "a.b", "a_c", "a b", "ab", "x[1]", "q*", "w?x", "a.20240101.10:00:00.000", "rep_c.x", "Zeta"}
@@ -581,10 +584,162 @@ func histsim(t *testing.T, tp *simrt.Tape, opts RunOpts) *Outcome {
 		}
 		sc.Ops = genHistOps(tp, nn, maxOps, true)
 		return histSeq(t, tp, cfg, sc, out, opts)
+	case "race":
+		return histRace(t, tp, cfg, sc, out, opts)
 	default:
 		sc.Ops = genHistOps(tp, nn, 8, false) // small prior history
 		return histCrash(t, tp, cfg, sc, out, opts)
 	}
+}
+
+// histRace (C06): what a long-lived, caching reader (the server, the daemon) returns while and after another
+// process records statuses. Rounds of two or three back-to-back writes to one run's record (manual edits, or
+// the status lines of a run in progress) with a tight poller on the cached instance; after every round, once
+// the writer is done, the cached instance must return the last status recorded, like the uncached lookup.
+func histRace(t *testing.T, tp *simrt.Tape, cfg simrt.Config, sc *histScenario, out *Outcome, opts RunOpts) *Outcome {
+	rounds := 6 + tp.Draw(simrt.SGen, 10)
+	live := chance(tp, 1, 2) // the writes are those of a run in progress (one writer, file kept open) instead of edits
+	shared := !live && chance(tp, 1, 2) // the edits go through the same long-lived instance that answers the queries (the API server)
+	if shared {
+		// two goroutines of one process around an unlocked map: every map operation is a scheduling point here
+		cfg.LockYieldNum = 100
+	}
+	res := simrt.Run(t, cfg, func(w *simrt.World) {
+		seedIDs(tp)
+		setupDirs(w)
+		h := &histCtx{w: w, sc: sc, m: &histModel{}, out: out, prop: "C06", nameOf: append([]string{}, sc.Names...)}
+		h.server = jsondb.New(dataDir, sc.LatestToday)
+		name := sc.Names[0]
+		path := dagFile(name)
+		// an older, completed run, and the run that is written to
+		h.applyOp(histOp{Kind: "start", Dag: 0})
+		h.applyOp(histOp{Kind: "close", Run: 0})
+		simrt.Sleep(3 * time.Millisecond)
+		h.applyOp(histOp{Kind: "start", Dag: 0})
+		cur := h.m.runs[len(h.m.runs)-1]
+		if !live {
+			h.applyOp(histOp{Kind: "close", Run: 1 << 20})
+		}
+		if len(out.Violations) > 0 {
+			return
+		}
+		done := false
+		pollerDone := make(chan struct{})
+		poll := func() {
+			for n := 0; !done && n < 20000; n++ {
+				_ = h.server.ReadStatusRecent(path, 2)
+				if n%3 == 0 {
+					_, _ = h.server.ReadStatusToday(path)
+				}
+				w.Probe("race_poll")
+				if shared {
+					w.Probe("race_poll_shared")
+				}
+				if shared {
+					simrt.Yield() // back to back: a busy server (a timer wait here would keep the two apart)
+				} else {
+					simrt.Sleep(time.Duration(20+tp.Draw(simrt.SLat, 200)) * time.Microsecond)
+				}
+			}
+		}
+		var poller *simrt.Proc
+		if shared {
+			// one server process: a request handler goroutine lists while another one edits through the same instance
+			simrt.Go(func() {
+				defer close(pollerDone)
+				poll()
+			})
+		} else {
+			poller = w.Spawn(simrt.CurProc(), "poller", []string{"poller"}, baseEnv(nil), workDir, true, func(p *simrt.Proc) int {
+				poll()
+				return 0
+			})
+		}
+		for r := 0; r < rounds && len(out.Violations) == 0; r++ {
+			nw := 2 + tp.Draw(simrt.SGen, 2)
+			last := 0
+			write := func() {
+				h.marker++
+				last = h.marker
+				st := mkStatus(cur.id, name, last, dagsched.StatusRunning)
+				var err error
+				if live {
+					err = cur.db.Write(st)
+				} else if shared {
+					err = h.server.Update(path, cur.id, st)
+				} else {
+					err = jsondb.New(dataDir, sc.LatestToday).Update(path, cur.id, st)
+				}
+				if err != nil {
+					h.viol("write-failed", "race", "recording status %d failed: %v", last, err)
+				}
+			}
+			if live || shared {
+				for i := 0; i < nw; i++ {
+					write()
+				}
+			} else {
+				inProc(w, "updater", func() {
+					for i := 0; i < nw; i++ {
+						write()
+					}
+				})
+			}
+			cur.acked = last
+			// let the poller finish whatever it was in the middle of
+			if shared {
+				for k := 0; k < 40; k++ {
+					simrt.Yield()
+				}
+			} else {
+				simrt.Sleep(time.Duration(1+tp.Draw(simrt.SGen, 3)) * time.Millisecond)
+			}
+			w.Probe("race_round")
+			if shared {
+				w.Probe("race_round_shared")
+			}
+			byID, err := h.server.FindByRequestID(path, cur.id)
+			if err != nil || markerOf(byID.Status) != last {
+				h.viol("lookup-stale-status", "concurrent-reader", "round %d: lookup by id returns marker %d (err %v), the last status recorded is %d", r, markerOf(statusOrNil(byID)), err, last)
+			}
+			rec := h.server.ReadStatusRecent(path, 1)
+			if len(rec) != 1 || rec[0].Status.RequestID != cur.id || markerOf(rec[0].Status) != last {
+				got := -1
+				if len(rec) == 1 {
+					got = markerOf(rec[0].Status)
+				}
+				h.viol("recent-stale-status", "concurrent-reader", "round %d (%d back-to-back writes, run in progress: %v): the cached reader's recent(1) returns marker %d, the last status recorded is %d", r, nw, live, got, last)
+			}
+			if td, err := h.server.ReadStatusToday(path); err == nil && td.RequestID == cur.id && markerOf(td) != last {
+				h.viol("latest-stale-status", "concurrent-reader", "round %d: the cached reader's latest status has marker %d, the last status recorded is %d", r, markerOf(td), last)
+			}
+		}
+		done = true
+		if poller != nil {
+			simexec.WaitProc(poller)
+		} else {
+			simrt.Yield()
+			select {
+			case <-pollerDone:
+				simrt.Woke()
+			case <-simrt.Dead():
+				simrt.Die()
+			}
+		}
+		out.NonTrivial = true
+	})
+	fillOutcome(out, res, opts)
+	if len(res.Panics) > 0 {
+		out.Violations = append(out.Violations, Violation{Prop: "C06", Clause: "panic", Disc: panicDisc(res.Panics[0]), Msg: res.Panics[0]})
+	}
+	return out
+}
+
+func statusOrNil(sf *model.StatusFile) *model.Status {
+	if sf == nil {
+		return nil
+	}
+	return sf.Status
 }
 
 func histSeq(t *testing.T, tp *simrt.Tape, cfg simrt.Config, sc *histScenario, out *Outcome, opts RunOpts) *Outcome {
@@ -809,6 +964,14 @@ func victimOps(v victimPlan) []histOp {
 		return append(ops, histOp{Kind: "close", Run: 1 << 20})
 	case "update":
 		return []histOp{{Kind: "update", Run: v.Run}}
+	case "update2":
+		// two edits of the same run in quick succession (no compaction in between): a cached reader that is
+		// reloading the file because of the first must not miss the second
+		ops := []histOp{}
+		for i := 0; i < 4+v.Writes*3; i++ {
+			ops = append(ops, histOp{Kind: "update", Run: v.Run})
+		}
+		return ops
 	case "rename":
 		return []histOp{{Kind: "rename", Dag: v.Dag, To: v.To}}
 	default:
@@ -819,7 +982,11 @@ func victimOps(v victimPlan) []histOp {
 var victimProcNames = map[string]bool{"victim": true, "updater": true, "renamer": true, "cleaner": true}
 
 func histCrash(t *testing.T, tp *simrt.Tape, cfg simrt.Config, sc *histScenario, out *Outcome, opts RunOpts) *Outcome {
-	v := victimPlan{Kind: pick(tp, "run", "run", "run", "update", "rename", "removeold"), Writes: tp.Draw(simrt.SGen, 4), Dag: tp.Draw(simrt.SGen, len(sc.Names)), Run: tp.Draw(simrt.SGen, 8), Days: tp.Draw(simrt.SGen, 2), To: tp.Draw(simrt.SGen, len(dagNames))}
+	kinds := []string{"run", "run", "run", "update", "rename", "removeold"}
+	if sc.Variant == "reader" {
+		kinds = append(kinds, "update2", "update2", "update2")
+	}
+	v := victimPlan{Kind: kinds[tp.Draw(simrt.SGen, len(kinds))], Writes: tp.Draw(simrt.SGen, 4), Dag: tp.Draw(simrt.SGen, len(sc.Names)), Run: tp.Draw(simrt.SGen, 8), Days: tp.Draw(simrt.SGen, 2), To: tp.Draw(simrt.SGen, len(dagNames))}
 	sc.Victim = victimOps(v)
 	reader := sc.Variant == "reader"
 
@@ -909,6 +1076,19 @@ func histCrash(t *testing.T, tp *simrt.Tape, cfg simrt.Config, sc *histScenario,
 				}
 				return 0
 			})
+			if reader && v.Kind == "update2" {
+				// a tight poller on the long-lived cached instance: most of its time is spent between "read the
+				// file" and "note its size and mtime", which is where a write of the other process must not be lost
+				w.Spawn(simrt.CurProc(), "poller", []string{"poller"}, baseEnv(nil), workDir, true, func(p *simrt.Proc) int {
+					for n := 0; victim.Alive() && n < 400; n++ {
+						for _, name := range h.nameOf {
+							_ = h.server.ReadStatusRecent(dagFile(name), 2)
+						}
+						w.Probe("tight_poll_rounds")
+					}
+					return 0
+				})
+			}
 			if reader {
 				rd := w.Spawn(simrt.CurProc(), "reader", []string{"reader"}, baseEnv(nil), workDir, true, func(p *simrt.Proc) int {
 					n := 0
@@ -923,7 +1103,7 @@ func histCrash(t *testing.T, tp *simrt.Tape, cfg simrt.Config, sc *histScenario,
 								first[v.Sig()] = true
 							}
 							out.Violations = out.Violations[:pre]
-							bump(out, "concurrent_transient_anomaly")
+							w.Probe("concurrent_transient_anomaly")
 							h.relaxedCheck(fmt.Sprintf("concurrent#%d-again", n), h.server, "cached", fl)
 							kept := out.Violations[:pre]
 							for _, v := range out.Violations[pre:] {
@@ -934,7 +1114,7 @@ func histCrash(t *testing.T, tp *simrt.Tape, cfg simrt.Config, sc *histScenario,
 							out.Violations = kept
 						}
 						n++
-						bump(out, "concurrent_query_rounds")
+						w.Probe("concurrent_query_rounds")
 					}
 					return 0
 				})
